@@ -476,10 +476,54 @@ class Interp(ModelMixin):
             raise AnalysisError('starred assignment target')
         raise AnalysisError(f'unsupported assignment target {type(target).__name__}')
 
+    def unpack_starred(self, target, val, st, node):
+        """a, *rest = xs   /   *init, last = xs   (one starred name, list operand)"""
+        elts = target.elts
+        star = [i for i, e in enumerate(elts) if isinstance(e, ast.Starred)]
+        if len(star) != 1 or not (isinstance(val, Ref) and val.kind == 'list'):
+            raise AnalysisError('unsupported starred unpacking')
+        k = star[0]
+        before, after = elts[:k], elts[k + 1:]
+        need = len(before) + len(after)
+        res = []
+        for ok, s in self.len_cmp(val.sym, '>=', need, st):
+            if not ok:
+                res.append((('raise', self.exc('ValueError', s, node, f'not enough values to unpack (expected at least {need})').exc), s))
+                continue
+            outs = [(NEXT, s)]
+            for i, t in enumerate(before):
+                nxt = []
+                for ctl, s1 in outs:
+                    if ctl != NEXT:
+                        nxt.append((ctl, s1))
+                        continue
+                    for v, s2 in self.list_nth(val, i, s1, node):
+                        nxt.extend(self.assign(t, v, s2, node))
+                outs = nxt
+            for j, t in enumerate(after):
+                nxt = []
+                for ctl, s1 in outs:
+                    if ctl != NEXT:
+                        nxt.append((ctl, s1))
+                        continue
+                    for v, s2 in self.list_nth(val, -(len(after) - j), s1, node):
+                        nxt.extend(self.assign(t, v, s2, node))
+                outs = nxt
+            spec = (len(before) or None, -len(after) if after else None, None)
+            nxt = []
+            for ctl, s1 in outs:
+                if ctl != NEXT:
+                    nxt.append((ctl, s1))
+                    continue
+                for v, s2 in self.model_slice(val, spec, s1, node):
+                    nxt.extend(self.assign(elts[k].value, v, s2, node))
+            res.extend(nxt)
+        return res
+
     def unpack(self, target, val, st, node):
         n = len(target.elts)
         if any(isinstance(e, ast.Starred) for e in target.elts):
-            raise AnalysisError('starred unpacking')
+            return self.unpack_starred(target, val, st, node)
         res = []
         for items, s in self.as_fixed(val, n, st, node):
             if isinstance(items, Raise):
